@@ -133,6 +133,23 @@ impl<'a> Tape<'a> {
             }
         }
     }
+    /// an element count in 0..=max: mostly tiny, sometimes one of the thresholds where counters, caps and length fields wrap
+    /// (255/256/257, 1023..1025, 4095..4097, 32766/32767, 65535/65536, max-1, max)
+    pub fn count(&mut self, max: usize) -> usize {
+        if self.chance(225) {
+            return self.small(max.min(12));
+        }
+        let mut c: Vec<usize> = Vec::new();
+        for v in [255usize, 256, 257, 1023, 1024, 1025, 4095, 4096, 4097, 32766, 32767, 65535, 65536, max.saturating_sub(1), max] {
+            if v <= max {
+                c.push(v);
+            }
+        }
+        if c.is_empty() {
+            return self.below(max + 1);
+        }
+        c[self.below(c.len())]
+    }
     /// small length, 0..=max, mostly tiny
     pub fn small(&mut self, max: usize) -> usize {
         match self.weighted(&[8, 2]) {
